@@ -167,7 +167,13 @@ func (mw *PartStoreMiddleware) PutPart(ctx context.Context, tx database.Tx, part
 		}
 	}()
 
-	return mw.innerPartStore.PutPart(ctx, tx, partId, pipeReader)
+	err = mw.innerPartStore.PutPart(ctx, tx, partId, pipeReader)
+	if err != nil {
+		// The inner store may fail without draining the pipe; closing the read
+		// side unblocks the compressing goroutine instead of leaking it.
+		_ = pipeReader.CloseWithError(err)
+	}
+	return err
 }
 
 func (mw *PartStoreMiddleware) estimateSampleCompressionRatio(sample []byte) (float64, error) {
